@@ -37,7 +37,7 @@ fn pick_world(rng: &mut Rng, ws: &[(&str, u32)]) -> String {
     ws[rng.weighted(&w)].0.to_string()
 }
 
-const MAP_WORLDS: &[(&str, u32)] = &[("M16", 5), ("Mpod", 2), ("M208", 1), ("M64a", 1), ("M5", 1), ("M6", 1), ("Mz", 1)];
+const MAP_WORLDS: &[(&str, u32)] = &[("M16", 10), ("Mpod", 4), ("M208", 2), ("M64a", 2), ("M5", 2), ("M6", 2), ("Mz", 2), ("Mzz", 1)];
 
 /// State-building operations that every map profile mixes in.
 const MAP_BUILD: &[(Kd, u32)] = &[(Kd::Insert, 30), (Kd::Remove, 14), (Kd::Extend, 3), (Kd::Clear, 1), (Kd::Reserve, 1), (Kd::ShrinkTo, 1), (Kd::ShrinkToFit, 1), (Kd::WithCapacity, 1), (Kd::Get, 2), (Kd::Entry, 2), (Kd::Retain, 1)];
@@ -470,7 +470,10 @@ pub fn owns(prop: &str, v: &Violation) -> bool {
     // functional disagreement with the reference model, attributed by the kind of the failing operation
     let functional = starts(c, "ret/") || starts(c, "contents/") || starts(c, "len/") || starts(c, "sweep/") || starts(c, "panic/");
     match prop {
-        "C01" => (functional || starts(c, "entry/") || starts(c, "retain/visits") || starts(c, "inv/I6")) && MAP_CORE_OPS.contains(&k),
+        // the structural invariants are the state form of the functional statement: the property quantifies over
+        // every hasher, and for a control byte that disagrees with its mirror (or a count that disagrees with
+        // the control bytes) there is a key and hasher whose lookup answers wrongly
+        "C01" => (functional || starts(c, "entry/") || starts(c, "retain/visits") || starts(c, "inv/")) && MAP_CORE_OPS.contains(&k),
         // (a dead element that is still stored after an unwind is a dangling reference waiting to be handed out)
         "C02" => safety || starts(c, "postpanic/dead-element") || starts(c, "panic/") || starts(c, "alloc/size-mismatch") || starts(c, "alloc/over-reservation"),
         // an element that is still stored after it was dropped, or that vanished without being dropped, while a
@@ -478,8 +481,8 @@ pub fn owns(prop: &str, v: &Violation) -> bool {
         "C03" => starts(c, "inv/I2") || starts(c, "postpanic/dead-element") || starts(c, "postpanic/leaked-element") || starts(c, "ledger/") || starts(c, "alloc/leak") || starts(c, "alloc/double-free") || starts(c, "alloc/bad-free") || starts(c, "alloc/layout-mismatch") || starts(c, "alloc/size-mismatch") || starts(c, "cap/alloc-on-new"),
         "C04" => starts(c, "postpanic/") || safety || starts(c, "alloc/") || starts(c, "ledger/"),
         "C05" => safety || starts(c, "diverge/") || starts(c, "byz/") || starts(c, "ledger/") || starts(c, "alloc/") || starts(c, "getmany/alias") || starts(c, "panic/"),
-        "C06" => starts(c, "inv/I6") || functional || starts(c, "entry/") || starts(c, "iterhash/") || starts(c, "reinsert/") || starts(c, "retain/") || starts(c, "extract/") || starts(c, "drain/yield") || starts(c, "iterlen/") || starts(c, "getmany/"),
-        "C07" => starts(c, "inv/I6") || functional || starts(c, "setalg/") || starts(c, "set/") || starts(c, "entry/"),
+        "C06" => starts(c, "inv/") || functional || starts(c, "entry/") || starts(c, "iterhash/") || starts(c, "reinsert/") || starts(c, "retain/") || starts(c, "extract/") || starts(c, "drain/yield") || starts(c, "iterlen/") || starts(c, "getmany/"),
+        "C07" => starts(c, "inv/") || functional || starts(c, "setalg/") || starts(c, "set/") || starts(c, "entry/"),
         "C08" => starts(c, "inv/I6") || starts(c, "cap/") || starts(c, "drain/allocation") || starts(c, "alloc/size-mismatch"),
         "C09" => starts(c, "iter/") || starts(c, "iterlen/") || (functional && ["Iter", "IntoIter", "SetIter", "TIter"].contains(&k)),
         "C10" => ((starts(c, "inv/I6") || starts(c, "iterlen/")) && ["Retain", "ExtractIf", "Drain"].contains(&k)) || starts(c, "retain/") || starts(c, "extract/") || starts(c, "drain/") || (functional && ["Retain", "ExtractIf", "Drain"].contains(&k)),
